@@ -13,7 +13,9 @@
     exactly the declared size — for every `Ty`, by induction.
   * exactness (`c06_decode_enc`, `c06_compat_sound`, `c06_exact`): a layout with the same
     normal form as the reference schema decodes the encoding of every conforming value to
-    that value's fields, and leaves the stream at the end of the encoding.
+    that value's fields, and leaves the stream at the end of the encoding - record batches
+    included (`readVarInt_enc`: zigzag LEB128 varints over the whole int64 range;
+    `decodeRecord_enc`: keys, values and headers of any length, null and empty).
   * the table (`c06_table`): every (api, version, direction) of the reference is either
     wire-equivalent to the selected layout or listed in `deviations` (the known findings).
 -/
@@ -439,14 +441,254 @@ theorem readByte_before (x : UInt8) (rest : Bytes) (k : Nat) :
   simp only [List.length_singleton] at this ⊢
   rw [this]
 
+/-! ### varints and records -/
+
+theorem before_cons (b : UInt8) (bs rest : Bytes) (k : Nat) :
+    before (b :: bs) rest k = before [b] (bs ++ rest) (bs.length + k) := by
+  have := before_append [b] bs rest k
+  simpa using this
+
+/-- the LEB128 loop on the encoding of `n`, with `x` accumulated below bit `s` -/
+theorem varLoop_enc : ∀ (f n fuel x s : Nat) (rest : Bytes) (k : Nat),
+    n < 128 ^ f → 0 < f → (encUvarint f n).length ≤ fuel → x + n * 2 ^ s < 2 ^ 64 →
+    varLoop fuel x s (before (encUvarint f n) rest k) = (some (x + n * 2 ^ s), after rest k)
+  | 0, _, _, _, _, _, _, _, hf, _, _ => by omega
+  | f + 1, n, fuel, x, s, rest, k, hn, _, hfuel, hx => by
+    by_cases hsmall : n < 128
+    · cases fuel with
+      | zero => simp [encUvarint, hsmall] at hfuel
+      | succ fu =>
+        have hb : (n.toUInt8).toNat = n := by simp [Nat.toUInt8_eq]; omega
+        simp only [encUvarint, hsmall, if_true, varLoop, readByte_before, hb]
+        simp [Nat.mod_eq_of_lt hx]
+    · have hf1 : 0 < f := by
+        cases f with
+        | zero => simp at hn; omega
+        | succ g => omega
+      have hdiv : n / 128 < 128 ^ f := by
+        rw [Nat.pow_succ] at hn
+        exact Nat.div_lt_of_lt_mul (by rw [Nat.mul_comm]; exact hn)
+      cases fuel with
+      | zero => simp [encUvarint, hsmall] at hfuel
+      | succ fu =>
+        have hb : ((n % 128 + 128).toUInt8).toNat = n % 128 + 128 := by simp [Nat.toUInt8_eq]; omega
+        have hsplit : n = n / 128 * 128 + n % 128 := by omega
+        have hpow : 2 ^ (s + 7) = 128 * 2 ^ s := by rw [Nat.pow_add]; omega
+        have hx' : x + n % 128 * 2 ^ s + n / 128 * 2 ^ (s + 7) = x + n * 2 ^ s := by
+          rw [hpow]
+          have : n * 2 ^ s = (n / 128 * 128 + n % 128) * 2 ^ s := by rw [← hsplit]
+          rw [this, Nat.add_mul, Nat.mul_assoc]; omega
+        have hlt : x + n % 128 * 2 ^ s < 2 ^ 64 := by
+          have : n % 128 * 2 ^ s ≤ n * 2 ^ s := Nat.mul_le_mul_right _ (Nat.mod_le _ _)
+          omega
+        simp only [encUvarint, hsmall, if_false, List.length_cons] at hfuel ⊢
+        rw [before_cons]
+        simp only [varLoop, readByte_before, hb]
+        have hnot : ¬ (n % 128 + 128 < 128) := by omega
+        have hmod : (n % 128 + 128) % 128 = n % 128 := by omega
+        simp only [hnot, if_false, hmod, Nat.mod_eq_of_lt hlt]
+        have ih := varLoop_enc f (n / 128) fu (x + n % 128 * 2 ^ s) (s + 7) rest k hdiv hf1 (by omega) (by omega)
+        have hst : after (encUvarint f (n / 128) ++ rest) ((encUvarint f (n / 128)).length + k) =
+            before (encUvarint f (n / 128)) rest k := by simp [before, after]
+        rw [hst, ih, hx']
+
+theorem encUvarint_length_le : ∀ (f n : Nat), (encUvarint f n).length ≤ f
+  | 0, _ => by simp [encUvarint]
+  | f + 1, n => by
+    unfold encUvarint
+    split
+    · simp
+    · have := encUvarint_length_le f (n / 128); simp; omega
+
+theorem encUvarint_pos (f n : Nat) (hf : 0 < f) : 1 ≤ (encUvarint f n).length := by
+  cases f with
+  | zero => omega
+  | succ g => unfold encUvarint; split <;> simp
+
+/-- the zigzag code of an int64, as the encoder computes it -/
+def zz (i : Int) : Nat := if i ≥ 0 then (2 * i).toNat else (-2 * i - 1).toNat
+
+theorem zigzag_zz (i : Int) : zigzag (zz i) = i := by
+  unfold zigzag zz
+  by_cases h : i ≥ 0
+  · simp only [h, if_true]
+    have : (2 * i).toNat % 2 = 0 := by omega
+    simp only [this, if_true]; omega
+  · simp only [h, if_false]
+    have : ¬ ((-2 * i - 1).toNat % 2 = 0) := by omega
+    simp only [this, if_false]; omega
+
+/-- **Varints round-trip** over the whole int64 range, whatever follows. -/
+theorem readVarInt_enc (i : Int) (hi : inRange 64 i = true) (rest : Bytes) (k : Nat) :
+    readVarInt (before (varint i) rest k) = (i, after rest k) := by
+  unfold inRange at hi
+  simp only [Bool.and_eq_true, decide_eq_true_eq] at hi
+  have hz : zz i < 2 ^ 64 := by unfold zz; split <;> simp at hi ⊢ <;> omega
+  have hvar : varint i = encUvarint 10 (zz i) := by unfold varint uvarint zz; rfl
+  unfold readVarInt
+  have hlen := encUvarint_length_le 10 (zz i)
+  have hfuel : (encUvarint 10 (zz i)).length ≤ min 11 (before (varint i) rest k).remain := by
+    simp only [before, hvar]; omega
+  have := varLoop_enc 10 (zz i) (min 11 (before (varint i) rest k).remain) 0 0 rest k
+    (by have : (2 : Nat) ^ 64 ≤ 128 ^ 10 := by decide
+        omega) (by decide) (by rw [hvar] at hfuel ⊢; exact hfuel) (by simpa using hz)
+  rw [hvar] at this ⊢
+  rw [this]
+  simp [zigzag_zz]
+
+theorem readVarString_enc (n : Int) (b rest : Bytes) (k : Nat) (h : lenOk n b = true) :
+    readVarString n (before b rest k) = (.str b, after rest k) := by
+  unfold lenOk at h
+  simp only [Bool.or_eq_true, Bool.and_eq_true, decide_eq_true_eq, List.isEmpty_iff] at h
+  unfold readVarString
+  rcases h with ⟨hn, _⟩ | ⟨⟨hn, hb⟩, _⟩
+  · by_cases hz : n ≤ 0
+    · have : b = [] := by
+        have : b.length = 0 := by omega
+        exact List.length_eq_zero_iff.mp this
+      subst this; simp [hz, before_nil]
+    · simp only [hz, if_false]
+      have : n.toNat = b.length := by omega
+      rw [this, readN_before]
+  · subst hb; simp [hn, before_nil]
+
+theorem lenOk_range (n : Int) (b : Bytes) (h : lenOk n b = true) : inRange 64 n = true := by
+  unfold lenOk at h
+  simp only [Bool.or_eq_true, Bool.and_eq_true] at h
+  rcases h with ⟨_, h⟩ | ⟨_, h⟩ <;> exact h
+
+/-- one record header: key length, key, value length, value -/
+theorem decodeHeader_enc (kl vl : Int) (key v rest : Bytes) (k : Nat) (hk : lenOk kl key = true) (hv : lenOk vl v = true) :
+    decodeHeader (before (varint kl ++ key ++ varint vl ++ v) rest k) =
+      (.cons (.int kl) (.cons (.str key) (.cons (.int vl) (.cons (.str v) .nil))), after rest k) := by
+  unfold decodeHeader
+  simp only [List.append_assoc]
+  rw [before_append, readVarInt_enc kl (lenOk_range kl key hk)]
+  simp only
+  rw [show after (key ++ (varint vl ++ v) ++ rest) ((key ++ (varint vl ++ v)).length + k) =
+        before key ((varint vl ++ v) ++ rest) ((varint vl ++ v).length + k) by
+      simp [before, after, List.append_assoc, Nat.add_assoc]]
+  rw [readVarString_enc kl key _ _ hk]
+  simp only
+  rw [show after (varint vl ++ v ++ rest) ((varint vl ++ v).length + k) = before (varint vl) (v ++ rest) (v.length + k) by
+      simp [before, after, List.append_assoc, Nat.add_assoc]]
+  rw [readVarInt_enc vl (lenOk_range vl v hv)]
+  simp only
+  rw [show after (v ++ rest) (v.length + k) = before v rest k by simp [before, after]]
+  rw [readVarString_enc vl v _ _ hv]
+
+theorem after_before (bs rest : Bytes) (k : Nat) : after (bs ++ rest) (bs.length + k) = before bs rest k := by
+  simp [before, after]
+
+theorem peel_varint (i : Int) (hi : inRange 64 i = true) (tl rest : Bytes) (k : Nat) :
+    readVarInt (before (varint i ++ tl) rest k) = (i, before tl rest k) := by
+  rw [before_append, readVarInt_enc i hi, after_before]
+
+theorem peel_int1 (i : Int) (hi : inRange 8 i = true) (tl rest : Bytes) (k : Nat) :
+    readInt 1 (before (encInt 1 i ++ tl) rest k) = (i, before tl rest k) := by
+  rw [before_append, readInt_before 1 (by simp) i (by simpa using hi), after_before]
+
+theorem peel_varstr (n : Int) (b : Bytes) (h : lenOk n b = true) (tl rest : Bytes) (k : Nat) :
+    readVarString n (before (b ++ tl) rest k) = (.str b, before tl rest k) := by
+  rw [before_append, readVarString_enc n b _ _ h, after_before]
+
+theorem varint_pos (i : Int) : 1 ≤ (varint i).length := by
+  unfold varint uvarint; exact encUvarint_pos 10 _ (by decide)
+
+theorem encHeader_pos (h : Val) (hc : conformsHeader h = true) : 2 ≤ (encHeader h).length := by
+  match h, hc with
+  | .cons (.int kl) (.cons (.str k) (.cons (.int vl) (.cons (.str v) .nil))), _ =>
+    have h1 := varint_pos kl
+    have h2 := varint_pos vl
+    simp only [encHeader, strBytes, List.length_append]; omega
+
+theorem decodeHeader_enc' (h : Val) (hc : conformsHeader h = true) (rest : Bytes) (k : Nat) :
+    decodeHeader (before (encHeader h) rest k) = (h, after rest k) := by
+  match h, hc with
+  | .cons (.int kl) (.cons (.str key) (.cons (.int vl) (.cons (.str v) .nil))), hc =>
+    simp only [conformsHeader, Bool.and_eq_true] at hc
+    simpa [encHeader, strBytes] using decodeHeader_enc kl vl key v rest k hc.1 hc.2
+
+/-- the header loop over the encodings of the headers -/
+theorem repeatWhile_headers : ∀ (hs : Val), allChain conformsHeader hs = true → ∀ (rest : Bytes) (k : Nat),
+    repeatWhile decodeHeader hs.chainLen (before (chainBytes encHeader hs) rest k) = (hs, after rest k)
+  | .cons h r, hc, rest, k => by
+    simp only [allChain, Bool.and_eq_true] at hc
+    have hpos := encHeader_pos h hc.1
+    have hrem : (before (encHeader h ++ chainBytes encHeader r) rest k).remain > 0 := by
+      simp only [before, List.length_append]; omega
+    have herr : (before (encHeader h ++ chainBytes encHeader r) rest k).err = false := rfl
+    simp only [Val.chainLen, chainBytes, repeatWhile, hrem, herr, Bool.false_eq_true, not_false_eq_true, and_self, if_true]
+    rw [before_append, decodeHeader_enc' h hc.1]
+    simp only
+    rw [after_before, repeatWhile_headers r hc.2 rest k]
+  | .nil, _, rest, k => by simp [Val.chainLen, chainBytes, repeatWhile, before_nil]
+  | .int _, h, _, _ | .bool _, h, _, _ | .str _, h, _, _ | .nullStr, h, _, _ | .bytes _, h, _, _
+  | .null, h, _, _ | .arr _, h, _, _ => by simp [allChain] at h
+
+theorem headers_len (hs : Val) (hc : allChain conformsHeader hs = true) : hs.chainLen ≤ (chainBytes encHeader hs).length := by
+  match hs, hc with
+  | .cons h r, hc =>
+    simp only [allChain, Bool.and_eq_true] at hc
+    have := encHeader_pos h hc.1
+    have := headers_len r hc.2
+    simp only [Val.chainLen, chainBytes, List.length_append]; omega
+  | .nil, _ => simp [Val.chainLen]
+
+/-- **Records round-trip**: every conforming record - varint lengths of any size, null and empty
+    keys and values, any bytes, any number of headers - is decoded to exactly its fields. -/
+theorem decodeRecord_enc (v : Val) (hc : conformsRec v = true) (rest : Bytes) (k : Nat) :
+    decodeRecord (before (encRecord v) rest k) = (v, after rest k) := by
+  match v, hc with
+  | .cons (.int len) (.cons (.int at_) (.cons (.int ts) (.cons (.int off) (.cons (.int kl) (.cons (.str key)
+      (.cons (.int vl) (.cons (.str val) (.cons (.arr hs) .nil)))))))), hc =>
+    simp only [conformsRec, Bool.and_eq_true] at hc
+    obtain ⟨⟨⟨⟨⟨⟨⟨hlen, hat⟩, hts⟩, hoff⟩, hk⟩, hv⟩, hhs⟩, hcount⟩ := hc
+    unfold decodeRecord
+    simp only [encRecord, strBytes, List.append_assoc]
+    rw [peel_varint len hlen]; simp only
+    rw [peel_int1 at_ hat]; simp only
+    rw [peel_varint ts hts]; simp only
+    rw [peel_varint off hoff]; simp only
+    rw [peel_varint kl (lenOk_range kl key hk)]; simp only
+    rw [peel_varstr kl key hk]; simp only
+    rw [peel_varint vl (lenOk_range vl val hv)]; simp only
+    rw [peel_varstr vl val hv]; simp only
+    rw [peel_varint (hs.chainLen : Int) hcount]; simp only
+    have hmin : min ((hs.chainLen : Int)).toNat (before (chainBytes encHeader hs) rest k).remain = hs.chainLen := by
+      have := headers_len hs hhs
+      simp only [before, Int.toNat_natCast]; omega
+    rw [hmin, repeatWhile_headers hs hhs rest k]
+
 /-- `Good ty v`: decoding the encoding of `v`, whatever follows it, yields `v` (with null strings
     reported as empty) and stops exactly at the end of the encoding -/
 def Good (ty : Ty) (v : Val) : Prop :=
   ∀ (rest : Bytes) (k : Nat), decode ty (before (enc false ty v) rest k) = (normV v, after rest k)
 
-theorem decodePrim_enc (p : Prim) (v : Val) (hp : p ≠ .recordV0) (hc : conformsPrim p v = true)
+theorem normV_headers : ∀ (hs : Val), allChain conformsHeader hs = true → normV hs = hs
+  | .cons h r, hc => by
+    simp only [allChain, Bool.and_eq_true] at hc
+    have ih := normV_headers r hc.2
+    match h, hc.1 with
+    | .cons (.int _) (.cons (.str _) (.cons (.int _) (.cons (.str _) .nil))), _ => simp [normV, ih]
+  | .nil, _ => by simp [normV]
+  | .int _, h | .bool _, h | .str _, h | .nullStr, h | .bytes _, h | .null, h | .arr _, h => by simp [allChain] at h
+
+theorem normV_rec (v : Val) (hc : conformsRec v = true) : normV v = v := by
+  match v, hc with
+  | .cons (.int _) (.cons (.int _) (.cons (.int _) (.cons (.int _) (.cons (.int _) (.cons (.str _)
+      (.cons (.int _) (.cons (.str _) (.cons (.arr hs) .nil)))))))), hc =>
+    simp only [conformsRec, Bool.and_eq_true] at hc
+    simp [normV, normV_headers hs hc.1.2]
+
+theorem decodePrim_enc (p : Prim) (v : Val) (hc : conformsPrim p v = true)
     (rest : Bytes) (k : Nat) :
     decodePrim p (before (encPrim false p v) rest k) = (normV v, after rest k) := by
+  by_cases hp : p = .recordV0
+  · subst hp
+    have hr : conformsRec v = true := by simpa [conformsPrim] using hc
+    simp only [decodePrim, encPrim]
+    rw [decodeRecord_enc v hr rest k, normV_rec v hr]
   cases p <;> cases v <;> simp [conformsPrim] at hc <;> try contradiction
   · -- bool
     rename_i b
@@ -510,31 +752,28 @@ theorem allChain_mono (p q : Val → Bool) (hpq : ∀ v, p v = true → q v = tr
 /-- **Round trip**: for every schema without records and every conforming value, the decoder
     applied to the reference encoding of the value - whatever follows it - yields the value and
     stops at the end of the encoding. -/
-theorem c06_decode_enc : ∀ (ty : Ty) (v : Val), Ty.recordFree ty = true → conforms ty v = true → Good ty v
-  | .prim p, v, hf, hc => by
+theorem c06_decode_enc : ∀ (ty : Ty) (v : Val), conforms ty v = true → Good ty v
+  | .prim p, v, hc => by
     intro rest k
-    have hp : p ≠ .recordV0 := by intro h; subst h; simp [Ty.recordFree] at hf
     simp only [decode, enc]
-    exact decodePrim_enc p v hp (by simpa [conforms] using hc) rest k
-  | .unit, v, _, hc => by
+    exact decodePrim_enc p v (by simpa [conforms] using hc) rest k
+  | .unit, v, hc => by
     intro rest k
     cases v <;> simp [conforms] at hc
     simp [decode, enc, normV, before_nil]
-  | .seq n a r, v, hf, hc => by
+  | .seq n a r, v, hc => by
     intro rest k
     cases v <;> simp [conforms] at hc
     rename_i x xs
-    simp only [Ty.recordFree, Bool.and_eq_true] at hf
     simp only [decode, enc]
-    rw [before_append, c06_decode_enc a x hf.1 hc.1]
+    rw [before_append, c06_decode_enc a x hc.1]
     simp only
     have hb : after (enc false r xs ++ rest) ((enc false r xs).length + k) = before (enc false r xs) rest k := by
       simp [before, after]
-    rw [hb, c06_decode_enc r xs hf.2 hc.2]
+    rw [hb, c06_decode_enc r xs hc.2]
     simp [normV]
-  | .arr e, v, hf, hc => by
+  | .arr e, v, hc => by
     intro rest k
-    simp only [Ty.recordFree] at hf
     cases v <;> simp [conforms] at hc
     · -- null
       simp only [decode, enc, Bool.false_eq_true, if_false]
@@ -556,7 +795,7 @@ theorem c06_decode_enc : ∀ (ty : Ty) (v : Val), Ty.recordFree ty = true → co
         chainLen_le_bytes _ es (allChain_mono _ _ (by intro v hv; simp only [Bool.and_eq_true] at hv; exact hv.2) es hall')
       have hmin : min es.chainLen (before (chainBytes (enc false e) es) rest k).remain = es.chainLen := by
         simp only [before]; omega
-      rw [hmin, repeatDec_enc e (zeroVal e) (fun v hv => c06_decode_enc e v hf hv) es hall' rest k]
+      rw [hmin, repeatDec_enc e (zeroVal e) (fun v hv => c06_decode_enc e v hv) es hall' rest k]
       simp [normV]
 
 /-! ### exactness: layouts with the same normal form decode alike -/
@@ -720,12 +959,12 @@ theorem leaves_normV : ∀ v : Val, leaves (normV v) = leaves v
     strings and bytes of any length including null, integers over their whole range - and whatever
     follows on the stream, the decoded payload carries exactly the field values that were
     encoded, in order, and decoding stops exactly at the end of the encoding. -/
-theorem c06_exact (l p : Ty) (hcompat : compat l p = true) (hfree : Ty.recordFree p = true)
+theorem c06_exact (l p : Ty) (hcompat : compat l p = true)
     (v : Val) (hv : conforms p v = true) (rest : Bytes) (k : Nat) :
     leaves (decode l (before (enc false p v) rest k)).1 = leaves v ∧
     (decode l (before (enc false p v) rest k)).2 = after rest k := by
   obtain ⟨hs, hl⟩ := c06_compat_sound l p hcompat (before (enc false p v) rest k)
-  have hg := c06_decode_enc p v hfree hv rest k
+  have hg := c06_decode_enc p v hv rest k
   rw [hs, hl, hg]
   exact ⟨leaves_normV v, rfl⟩
 
@@ -753,7 +992,8 @@ theorem c06_request_header (api ver corr : Int) (cid : Option Bytes) (body tail 
     let m : CMsg := { api, ver, corr, clientId := cid, body := .raw body }
     ∃ q, readRequest (encRequest m ++ tail) = .ok (q, tail) ∧
       q.size = ((encRequest m).length - 4 : Nat) ∧ q.apiKey = api ∧ q.ver = ver ∧ q.corr = corr ∧
-      q.clientId = cid.getD [] := by
+      q.clientId = cid.getD [] ∧ q.layout = (lookupLayout api ver).1 ∧
+      (∀ l, (lookupLayout api ver).1 = some l → q.payload = (decode l (before body tail 0)).1) := by
   intro m
   -- the message after its size field
   let cidB : Bytes := match cid with | some b => encInt 2 b.length ++ b | none => encInt 2 (-1)
@@ -802,10 +1042,11 @@ theorem c06_request_header (api ver corr : Int) (cid : Option Bytes) (body tail 
   cases hl : (lookupLayout api ver).1 with
   | none =>
     simp only
-    exact ⟨_, by rw [hrest _ (Within.refl _)], by simp [hlen4], rfl, rfl, rfl, rfl⟩
+    exact ⟨_, by rw [hrest _ (Within.refl _)], by simp [hlen4], rfl, rfl, rfl, rfl, rfl, by intro l hl'; cases hl'⟩
   | some ty =>
     simp only [hsup ty hl, Bool.false_eq_true, if_false]
-    exact ⟨_, by rw [hrest _ (decode_within ty _)], by simp [hlen4], rfl, rfl, rfl, rfl⟩
+    exact ⟨_, by rw [hrest _ (decode_within ty _)], by simp [hlen4], rfl, rfl, rfl, rfl, rfl, by
+      intro l hl'; cases hl'; rfl⟩
 
 /-! ### the table -/
 
@@ -826,7 +1067,7 @@ theorem c06_row (r : ProtoRow) (hr : r ∈ protoTable) : rowOk r = true := by
 /-- requests of every row outside the deviations: exact for all values and all continuations -/
 theorem c06_request_rows (r : ProtoRow) (hr : r ∈ protoTable) (hdev : (r.1.1, r.1.2, Dir.req) ∉ deviations) :
     r.2.2.1 = false ∧ ∃ l, (lookupLayout r.1.1 r.1.2).1 = some l ∧
-      ∀ v, Ty.recordFree r.2.1 = true → conforms r.2.1 v = true → ∀ rest k,
+      ∀ v, conforms r.2.1 v = true → ∀ rest k,
         leaves (decode l (before (enc false r.2.1 v) rest k)).1 = leaves v ∧
         (decode l (before (enc false r.2.1 v) rest k)).2 = after rest k := by
   have h := c06_row r hr
@@ -843,12 +1084,13 @@ theorem c06_request_rows (r : ProtoRow) (hr : r ∈ protoTable) (hdev : (r.1.1, 
   | none => rw [hl] at hc; simp at hc
   | some l =>
     rw [hl] at hc
-    exact ⟨l, rfl, fun v hf hv rest k => c06_exact l r.2.1 hc.2 hf v hv rest k⟩
+    simp only [Bool.and_eq_true, Bool.not_eq_true'] at hc
+    exact ⟨l, rfl, fun v hv rest k => c06_exact l r.2.1 hc.2.1 v hv rest k⟩
 
 /-- responses likewise -/
 theorem c06_response_rows (r : ProtoRow) (hr : r ∈ protoTable) (hdev : (r.1.1, r.1.2, Dir.resp) ∉ deviations) :
     r.2.2.2.2 = false ∧ ∃ l, (lookupLayout r.1.1 r.1.2).2 = some l ∧
-      ∀ v, Ty.recordFree r.2.2.2.1 = true → conforms r.2.2.2.1 v = true → ∀ rest k,
+      ∀ v, conforms r.2.2.2.1 v = true → ∀ rest k,
         leaves (decode l (before (enc false r.2.2.2.1 v) rest k)).1 = leaves v ∧
         (decode l (before (enc false r.2.2.2.1 v) rest k)).2 = after rest k := by
   have h := c06_row r hr
@@ -865,7 +1107,45 @@ theorem c06_response_rows (r : ProtoRow) (hr : r ∈ protoTable) (hdev : (r.1.1,
   | none => rw [hl] at hc; simp at hc
   | some l =>
     rw [hl] at hc
-    exact ⟨l, rfl, fun v hf hv rest k => c06_exact l r.2.2.2.1 hc.2 hf v hv rest k⟩
+    simp only [Bool.and_eq_true, Bool.not_eq_true'] at hc
+    exact ⟨l, rfl, fun v hv rest k => c06_exact l r.2.2.2.1 hc.2.1 v hv rest k⟩
+
+/-- **A whole request of a decoded API, end to end**: for every row of the reference outside the
+    deviations, every conforming body value, every correlation id and client id (null included)
+    and whatever follows on the stream: the request is accepted, its header is reported as
+    encoded, its payload carries exactly the encoded field values in order, its size is its
+    length, and the next message starts right after it. -/
+theorem c06_request_exact (r : ProtoRow) (hr : r ∈ protoTable) (hdev : (r.1.1, r.1.2, Dir.req) ∉ deviations)
+    (corr : Int) (cid : Option Bytes) (v : Val) (tail : Bytes)
+    (hapi : inRange 16 r.1.1 = true) (hver : inRange 16 r.1.2 = true) (hcorr : inRange 32 corr = true)
+    (hcid : ∀ b, cid = some b → b.length < 32768) (hv : conforms r.2.1 v = true)
+    (hsize : 8 + cidLen cid + (enc false r.2.1 v).length ≤ 1000000) :
+    let m : CMsg := { api := r.1.1, ver := r.1.2, corr, clientId := cid, body := .typed r.2.1 false v }
+    ∃ q, readRequest (encRequest m ++ tail) = .ok (q, tail) ∧
+      q.size = ((encRequest m).length - 4 : Nat) ∧ q.apiKey = r.1.1 ∧ q.ver = r.1.2 ∧ q.corr = corr ∧
+      q.clientId = cid.getD [] ∧ leaves q.payload = leaves v := by
+  intro m
+  have h := c06_row r hr
+  unfold rowOk at h
+  simp only [Bool.and_eq_true, Bool.or_eq_true] at h
+  have hc : rowCompat r .req = true := by
+    rcases h.1 with h1 | h1
+    · exact h1
+    · exact absurd (List.contains_iff_mem.mp h1) hdev
+  unfold rowCompat at hc
+  simp only [Bool.and_eq_true, Bool.not_eq_true'] at hc
+  cases hl : (lookupLayout r.1.1 r.1.2).1 with
+  | none => rw [hl] at hc; simp at hc
+  | some l =>
+    rw [hl] at hc
+    simp only [Bool.and_eq_true, Bool.not_eq_true'] at hc
+    have hraw : encRequest m = encRequest { api := r.1.1, ver := r.1.2, corr, clientId := cid, body := .raw (enc false r.2.1 v) } := by
+      simp [m, encRequest, encBody, Body.flex]
+    obtain ⟨q, hq, hsz, ha, hvv, hco, hci, _, hpay⟩ := c06_request_header r.1.1 r.1.2 corr cid (enc false r.2.1 v) tail hapi hver hcorr hcid hsize
+      (by intro ty hty; rw [hl] at hty; cases hty; exact hc.2.2)
+    refine ⟨q, by rw [hraw]; exact hq, by rw [hraw]; exact hsz, ha, hvv, hco, hci, ?_⟩
+    rw [hpay l hl]
+    exact (c06_exact l r.2.1 hc.2.1 v hv tail 0).1
 
 /-! ### non-vacuity: concrete rows, concrete conforming values -/
 
@@ -873,7 +1153,7 @@ theorem c06_response_rows (r : ProtoRow) (hr : r ∈ protoTable) (hdev : (r.1.1,
     replica / ISR / offline-replica arrays -/
 def metaV5 : ProtoRow := ((3, 5), ((protoTable.find? fun r => r.1 == (3, 5)).map (·.2)).getD (.unit, false, .unit, false))
 
-example : metaV5 ∈ protoTable ∧ (metaV5.1.1, metaV5.1.2, Dir.resp) ∉ deviations ∧ Ty.recordFree metaV5.2.2.2.1 = true := by
+example : metaV5 ∈ protoTable ∧ (metaV5.1.1, metaV5.1.2, Dir.resp) ∉ deviations := by
   decide +kernel
 
 def metaV5Value : Val :=
@@ -885,5 +1165,19 @@ def metaV5Value : Val :=
       .arr (chainOf [chainOf [.int 0, .int 0, .int 1, .arr (chainOf [.int 1, .int 2]), .arr (chainOf [.int 1]), .arr .nil]])]])]
 
 example : conforms metaV5.2.2.2.1 metaV5Value = true := by decide +kernel
+
+/-- Fetch v5 response: one topic, one partition with a null aborted-transactions array and a
+    record batch of one record with a key and a null value -/
+def fetchV5 : ProtoRow := ((1, 5), ((protoTable.find? fun r => r.1 == (1, 5)).map (·.2)).getD (.unit, false, .unit, false))
+
+def fetchV5Value : Val :=
+  let record := chainOf [.int 8, .int 0, .int 0, .int 0, .int 1, .str [107], .int (-1), .str [], .arr .nil]
+  let recordSet := chainOf [.int 70, .int 0, .int 58, .int (-1), .int 2, .int 0, .int 0, .int 0, .int 1, .int 1,
+    .int (-1), .int (-1), .int (-1), .arr (chainOf [record])]
+  chainOf [.int 0, .arr (chainOf [chainOf [.str [116],
+    .arr (chainOf [chainOf [.int 0, .int 0, .int 5, .int 5, .int 0, .null, recordSet]])]])]
+
+example : fetchV5 ∈ protoTable ∧ (fetchV5.1.1, fetchV5.1.2, Dir.resp) ∉ deviations ∧
+    conforms fetchV5.2.2.2.1 fetchV5Value = true := by decide +kernel
 
 end KsVerif.Proofs.C06
